@@ -364,16 +364,29 @@ class World:
         order = sc.get("link_order") or list(range(len(sc["links"])))
         if order != sorted(order):
             self.fault("F7_links_permuted")
+        def adapter_for(li, pi):
+            """adapter instance at position pi of link li; a shared prefix (fan-out at an adapter) refers to
+            the instances of the base link"""
+            ln = sc["links"][li]
+            if pi < ln.get("shared_len", 0):
+                return adapter_for(ln["shared_with"], pi)
+            if (li, pi) not in self.adapters:
+                a = ln["chain"][pi]
+                ad = make_adapter(a)
+                ad.with_name(f"L{li}a{pi}_{a['kind']}")
+                self.adapters[(li, pi)] = ad
+                self.labels[id(ad)] = f"L{li}.a{pi}"
+            return self.adapters[(li, pi)]
+
         for li in order:
             ln = sc["links"][li]
             src = self.comps[ln["src"][0]]
             cur = src.outputs[sc["components"][ln["src"][0]]["outputs"][ln["src"][1]]["name"]]
             for pi, a in enumerate(ln["chain"]):
-                ad = make_adapter(a)
-                ad.with_name(f"L{li}a{pi}_{a['kind']}")
-                self.adapters[(li, pi)] = ad
-                self.labels[id(ad)] = f"L{li}.a{pi}"
-                cur = cur >> ad
+                ad = adapter_for(li, pi)
+                if ad.source is None:
+                    cur >> ad
+                cur = ad
             if ln.get("dst") is not None:
                 dst = self.comps[ln["dst"][0]]
                 cur >> dst.inputs[sc["components"][ln["dst"][0]]["inputs"][ln["dst"][1]]["name"]]
